@@ -1,6 +1,25 @@
 use crate::report::{CheckMeta, Ctx, Report, Stage, Threshold};
 
 pub mod c01;
+pub mod c02;
+pub mod c03;
+pub mod c04;
+pub mod c05;
+pub mod c06;
+pub mod c07;
+pub mod c08;
+pub mod c09;
+pub mod c10;
+pub mod c11;
+pub mod c12;
+pub mod c13;
+pub mod c14;
+pub mod c15;
+pub mod c16;
+pub mod c17;
+pub mod c18;
+pub mod c19;
+pub mod c20;
 
 pub struct CheckDef {
     pub id: &'static str,
@@ -16,5 +35,26 @@ macro_rules! def {
 }
 
 pub fn all() -> Vec<CheckDef> {
-    vec![def!("C01", c01)]
+    vec![
+        def!("C01", c01),
+        def!("C02", c02),
+        def!("C03", c03),
+        def!("C04", c04),
+        def!("C05", c05),
+        def!("C06", c06),
+        def!("C07", c07),
+        def!("C08", c08),
+        def!("C09", c09),
+        def!("C10", c10),
+        def!("C11", c11),
+        def!("C12", c12),
+        def!("C13", c13),
+        def!("C14", c14),
+        def!("C15", c15),
+        def!("C16", c16),
+        def!("C17", c17),
+        def!("C18", c18),
+        def!("C19", c19),
+        def!("C20", c20),
+    ]
 }
